@@ -124,7 +124,7 @@ RETCODE adfReadBitmap ( struct AdfVolume * const        vol,
     j=0; i=0;
     /* bitmap pointers in rootblock : 0 <= i <BM_SIZE */
     SECTNUM nSect;
-    while ( i < BM_SIZE && root->bmPages[i] != 0 ) {
+    while ( i < BM_SIZE && root->bmPages[i] != 0 && j < vol->bitmapSize ) {
             vol->bitmapBlocks[j] = nSect = root->bmPages[i];
         if ( ! isSectNumValid ( vol, nSect ) ) {
             adfEnv.wFct ( "adfReadBitmap : sector %d out of range", nSect );
